@@ -110,8 +110,18 @@ Judge(ns, key, out) ==
 
 \* Every recorded lookup is consumed; a lookup the contract does not allow is reported (verdict
 \* names the clause) and the history goes on, so that the rest of the trace is still examined.
+\* start of the next phase function (Python generator: clear_locals): the local identifiers handed out so far
+\* go out of scope -- they may be reused, and a later lookup of the same key may get another identifier
+IsLocalEntry(m) == m[1] = "var" /\ ~PersistentKey(m[2])
+ClearStep ==
+    /\ pos <= Len(Steps) /\ Steps[pos].ns = "clear"
+    /\ map' = SelectSeq(map, LAMBDA m : ~IsLocalEntry(m))
+    /\ taken' = taken \ {Canon(map[k][3]) : k \in {j \in DOMAIN map : IsLocalEntry(map[j])}}
+    /\ pos' = pos + 1 /\ verdict' = ""
+    /\ UNCHANGED cid
+
 LookupStep ==
-    /\ pos <= Len(Steps)
+    /\ pos <= Len(Steps) /\ Steps[pos].ns # "clear"
     /\ LET st == Steps[pos]
            j  == Judge(st.ns, st.key, st.out)
        IN /\ map' = (IF st.ns # "unique" /\ Known(st.ns, st.key) THEN map
@@ -121,7 +131,7 @@ LookupStep ==
           /\ verdict' = (IF j = "ok" THEN "" ELSE j)
     /\ UNCHANGED cid
 
-Next == LookupStep
+Next == LookupStep \/ ClearStep
 
 Verdict  == verdict = "" \/ PrintT(<<"BAD", cid, pos - 1, verdict>>)
 Accepted == pos <= Len(Steps) \/ PrintT(<<"ACC", cid>>)
